@@ -15,6 +15,7 @@ Record sim (A : adapter) (m : dcmode) : Type := mk_sim {
   item_ok : item -> Prop;
   okb : list bop -> Prop;                 (* batches outside the deviation *)
   okb_s : list sbop -> Prop;              (* the same, before the held iterator is resolved *)
+  sim_init : sim_R (a_init A) (cs_of []);
   sim_dump : forall s c, sim_R s c -> a_dump A s = st c;
   sim_get : forall s c k, sim_R s c -> a_get A s k = get_result (st c) k;
   sim_iter : forall s c a b l, sim_R s c ->
@@ -298,7 +299,8 @@ Qed.
 Definition sim_memkv : sim memkv ByValue.
 Proof.
   refine (mk_sim memkv ByValue mem_R (fun i => snd (fst i) <> []) (Forall bop_nonempty) (Forall sbop_nonempty)
-            _ _ _ _ _ _ _ _ _ _).
+            _ _ _ _ _ _ _ _ _ _ _).
+  - repeat split; constructor.
   - intros s c (-> & _). reflexivity.
   - intros s c k (-> & _). reflexivity.
   - intros s c a b l (-> & Hs & _). cbn [a_iter memkv]. rewrite mem_iter_all by exact Hs.
@@ -489,7 +491,8 @@ Qed.
 Definition sim_tikv : sim tikv ByValue.
 Proof.
   refine (mk_sim tikv ByValue tikv_R (fun _ => True) (Forall bop_wnonempty) (Forall sbop_nonempty)
-            _ _ _ _ _ _ _ _ _ _).
+            _ _ _ _ _ _ _ _ _ _ _).
+  - repeat split; constructor.
   - intros s c (-> & _). reflexivity.
   - intros s c k (-> & _). reflexivity.
   - intros s c a b l (-> & Hs & _). cbn [a_iter tikv].
@@ -817,7 +820,8 @@ Qed.
 Definition sim_badger : sim badger ByVersion.
 Proof.
   refine (mk_sim badger ByVersion badger_R (fun _ => True) (fun ops => written_before_delcur ops [] = false)
-            (fun l => no_delcur_after_write l false = true) _ _ _ _ _ _ _ _ _ _).
+            (fun l => no_delcur_after_write l false = true) _ _ _ _ _ _ _ _ _ _ _).
+  - repeat split; constructor.
   - intros s c (Hst & _). cbn [a_dump badger]. symmetry. exact Hst.
   - intros s c k (Hst & _). cbn [a_get badger]. unfold b_get, get_result. rewrite Hst. unfold b_store.
     rewrite get_map_val. destruct (get (b_map s) k) as [[v ver]|]; reflexivity.
@@ -836,7 +840,7 @@ Defined.
 (* ====================================================================================== *)
 
 Definition sim_wrapper (A : adapter) (m : dcmode) (S : sim A m) : sim (wrapper A) m :=
-  mk_sim (wrapper A) m (sim_R A m S) (item_ok A m S) (okb A m S) (okb_s A m S)
+  mk_sim (wrapper A) m (sim_R A m S) (item_ok A m S) (okb A m S) (okb_s A m S) (sim_init A m S)
     (sim_dump A m S) (sim_get A m S) (sim_iter A m S) (sim_item A m S) (sim_batch A m S)
     (sim_del A m S) (sim_delcur A m S) (okb_del A m S) (okb_delcur A m S) (okb_resolve A m S).
 
